@@ -291,7 +291,7 @@ def classify(item, clauses):
         steps = steps_of(item)
         # comparisons on a dask Index yield a dask Array; everything downstream of that array is one input class
         if any(has_expr(o, "idx") for o in steps):
-            return "unary:raw-index-array:%s" % group
+            return "unary:raw-index-array"            # one input class, whatever clause fails (raise, row order, names, dtypes)
         # a row filter followed by a step that reads index.to_series() of the filtered frame, on duplicate labels
         src_idx = [r["idx"] for r in (item["prog"]["T"] if "prog" in item else item["T"])["rows"]]
         if dup_labels(src_idx) and any(o["op"] in ("filter", "sfilter") and any(has_expr(later, "idxs") for later in steps[i + 1:])
@@ -322,7 +322,7 @@ def classify(item, clauses):
         # binary operators assume partition-wise alignment; filter / assign / where align through a hash shuffle.  With
         # duplicate labels no label-based alignment can reproduce pandas (identical indexes are combined positionally)
         if dup_labels(li) or dup_labels(ri):
-            return "aligned:unknown-divisions:duplicate-labels:%s" % group
+            return "aligned:unknown-divisions:duplicate-labels"      # one input class, whatever clause fails
         return "aligned:%s:unknown-divisions:%s" % (cls, group)
     if len(item["layout"]) == 1 and len(item["layout2"]) == 1 and group == "raised" and li != ri:
         return "aligned:%s:single-partitions:different-divisions:raised" % cls
